@@ -256,7 +256,7 @@ SigOf(pw) ==
             (IF E.err THEN "left-by-failed-" \o E.ev ELSE "after-" \o StepSig)
        ELSE "after-" \o StepSig
 
-StateViols == C05State \cup (IF IsTA THEN TAState ELSE BalloonState(pol', ctrs', rt', rtlive', world', topo)) \cup C04State \cup C09State
+StateViols == C05State \cup (IF IsTA THEN TAState ELSE BalloonState(pol', ctrs', rt', rtlive', world', topo, SetOf(Get(E.st, "cpuclass", <<>>)))) \cup C04State \cup C09State
 NewViols == {V(pw[1], SigOf(pw), pw[2]) : pw \in StateViols \ broken}
 
 -----------------------------------------------------------------------------
